@@ -147,7 +147,7 @@ PROPS = {
     "C08": dict(
         rule=HIST_RULE + "; as C07, then Proof.Undo newest-first to depth k (all k sampled), canonical cached proof in the pre-block "
              "state checked after every undo (and Verify against the previous stump), followed by further updates on another branch",
-        strength="P: C08_undo_addition_blocks - the mirror of Proof.Undo computes EXACTLY the expected cached proof of the previous state for every addition-only block (any forest: re-created empty roots, a row lost; <= 2^63 leaves) and for every block with REGULAR deletions followed by any additions (C08_undo_regular_deletion_blocks); blocks with deletions: reduced to undoDel alone (C08_undo_reduces_to_undoDel) and decided by kernel computation on all 19,375 cases of 4 slots (C08_undo_all_blocks_4_slots); general proof of the deletion part open; which leaves remain after undo (abstract); the expected cached proof in the previous state exists, is canonical and verifies (C08_expected_cached_*); V: Proof.Undo output = that expected cached proof in the previous state, at every depth",
+        strength="P: C08_undo_every_block - the mirror of Proof.Undo computes EXACTLY the expected cached proof of the previous state for EVERY valid block (whole subtrees/trees deleted included, any additions, any remember subset, <= 2^63 leaves); C08_light_client_block_then_undo and C08_light_client_undo_to_any_depth: a light client that undoes the last k blocks newest-first is in step with the state k blocks ago; C08_undo_addition_blocks - the mirror of Proof.Undo computes EXACTLY the expected cached proof of the previous state for every addition-only block (any forest: re-created empty roots, a row lost; <= 2^63 leaves) and for every block with REGULAR deletions followed by any additions (C08_undo_regular_deletion_blocks); (intermediate results: C08_undo_reduces_to_undoDel, C08_undo_regular_deletion_blocks, C08_undo_all_blocks_4_slots by kernel computation); which leaves remain after undo (abstract); the expected cached proof in the previous state exists, is canonical and verifies (C08_expected_cached_*); V: Proof.Undo output = that expected cached proof in the previous state, at every depth",
         level_text="Which leaves a cached proof keeps through undo is a Coq theorem on the abstract model (no added leaf, nothing invented, "
                    "nothing lost except what the block deleted); the extracted oracle checks that Proof.Undo yields exactly the canonical "
                    "proof of that set in the previous state, at every depth.",
